@@ -500,10 +500,11 @@ def _minimise_history(check, tier, seed, i, case, sig, v, hist: t.List[int]) -> 
     best = None
     tries = 0
     chunk = max(1, len(prefix) // 2)
-    while chunk >= 1 and tries < 24 and prefix:
+    give_up_at = time.time() + 300  # (wall budget: the unminimised history is a valid replay file already)
+    while chunk >= 1 and tries < 24 and prefix and time.time() < give_up_at:
         progressed = False
         k = 0
-        while k < len(prefix) and tries < 24:
+        while k < len(prefix) and tries < 24 and time.time() < give_up_at:
             cand = prefix[:k] + prefix[k + chunk :]
             tries += 1
             path = _write_replay(check, tier, seed, i, case, sig, v, original=None, suffix="-history-min", history=cand + [i])
